@@ -310,7 +310,8 @@ SCALAR_PROBES = [("0", 0), ("3", 3), ("1.5", 1.5), ("True", True), ("1j", 1j), (
 DUCK_PROBES = [("Duck('float32', ())", Duck("float32", ())), ("Duck('float32', (2,))", Duck("float32", (2,))),
                ("Duck('int32', (2, 3))", Duck("int32", (2, 3))), ("Duck('bool', (3,))", Duck("bool", (3,)))]
 NP_SMALL = [(f"np.zeros({sh}, '{dt}')", np.zeros(sh, dt)) for dt in NP_DTYPES for sh in shapes(2, (1, 2, 3))]
-MIXED_PROBES = NP_SMALL + JAX_PROBES + SCALAR_PROBES + DUCK_PROBES
+NP_NARROW = [(f"np.zeros({sh}, '{dt}')", np.zeros(sh, dt)) for dt in ["float16", "int8"] for sh in [(2,), (2, 2), (2, 3), (3, 2)]]
+MIXED_PROBES = NP_SMALL + NP_NARROW + JAX_PROBES + SCALAR_PROBES + DUCK_PROBES
 NEG_PROBES = [JAX_PROBES[1], JAX_PROBES[8], SCALAR_PROBES[2], DUCK_PROBES[1]]
 
 PRELUDE = ("import numpy as np, jax, jax.numpy as jnp, typing, jaxtyping\nfrom jaxtyping import *\n"
@@ -548,6 +549,11 @@ MEMBERS = [
     ("Float[np.ndarray, 'a']", NESTED, ("nested", "Float", ("cls", np.ndarray), "a")),
 ]
 U_DIMS = ["", "a", "*c", "...", "3", "#a", "a b", "... a"]
+# nested members that differ ONLY in their inner category (same outer category, array type and shape string once wrapped):
+# a union must keep them apart (typing.Union merges members that compare equal)
+N16 = ("Float16[np.ndarray, 'a']", jaxtyping.Float16[np.ndarray, "a"], ("nested", "Float16", ("cls", np.ndarray), "a"))
+N32 = ("Float32[np.ndarray, 'a']", jaxtyping.Float32[np.ndarray, "a"], ("nested", "Float32", ("cls", np.ndarray), "a"))
+NI8 = ("Int8[np.ndarray, 'a']", jaxtyping.Int8[np.ndarray, "a"], ("nested", "Int8", ("cls", np.ndarray), "a"))
 
 
 def member_builds(d, objs, s):
@@ -568,6 +574,7 @@ def member_builds(d, objs, s):
 def run_unions():
     combos = [c for c in itertools.combinations(MEMBERS, 2)]
     combos += [(MEMBERS[0], MEMBERS[2], MEMBERS[3]), (MEMBERS[1], MEMBERS[6], MEMBERS[4]), (MEMBERS[2], MEMBERS[3], MEMBERS[4], MEMBERS[5])]
+    combos += [(N32, N16), (N16, N32), (MEMBERS[6], N16), (N32, NI8), (N16, MEMBERS[1], N32)]
     for d in CATS:
         for combo in combos:
             forms = [("Union[" + ", ".join(c[0] for c in combo) + "]", Union[tuple(c[1] for c in combo)])]
